@@ -73,11 +73,26 @@ def thermo_of(recipe):
     return True if sel is not None else RECIPES[recipe][1]
 
 
-def thermo_values(cfgseed):
+def thermo_fields(cfgseed):
+    """The thermochemical input's field list: the species block in mechanism order, or (one input in six) with two species
+    after the first exchanged -- a legal plotfile whose mass fractions chef must either use by NAME or refuse."""
+    if cfgseed % 6 != 0:
+        return list(THERMO_FIELDS)
+    f = list(THERMO_FIELDS)
+    i, j = 2 + 3, 2 + len(SPECIES) - 1          # Y(O2) <-> Y(N2)
+    f[i], f[j] = f[j], f[i]
+    return f
+
+
+def thermo_values(cfgseed, fields=None):
+    fields = fields or THERMO_FIELDS
+
     def values(lv, b, fi, box):
         shape = gamma.box_shape(box)
+        name = fields[fi - 1]
+        # the values of a field follow its NAME (position in the mechanism-ordered list), wherever it sits in the header
+        fi = THERMO_FIELDS.index(name) + 1
         rng = np.random.default_rng(gamma._tok_seed(cfgseed, ("thermo", lv, b, fi)))
-        name = THERMO_FIELDS[fi - 1]
         if name == "temp":
             return rng.uniform(400.0, 2400.0, shape)
         if name.startswith("Y("):
@@ -201,7 +216,8 @@ def run_scenario(chk, sc, cfgseed, recipe, flavour="sched", workers=None, pressu
     # concrete names of the input's fields: the thermochemical ones for cantera recipes; otherwise drawn from gamma's pools (prefix
     # pairs, parentheses, dots; no blank: kept fields are given as one blank-separated string)
     nm = gamma.names_map(cfgseed, list(sc["fields"]), blanks=False)
-    fields = THERMO_FIELDS if thermo else [nm[x] for x in sc["fields"]]
+    fields = thermo_fields(cfgseed) if thermo else [nm[x] for x in sc["fields"]]
+    permuted = thermo and fields != THERMO_FIELDS
     fmap = {1: 1, 2: 2, 3: len(fields)} if len(sc["fields"]) <= 3 else {1: 1, 2: 2, 3: 3, 4: len(fields)}   # abstract -> concrete position
     nmap = {n: fields[fmap[i + 1] - 1] for i, n in enumerate(sc["fields"])}
     nmap["zz"] = "zz" if thermo else nm["zz"]
@@ -209,7 +225,7 @@ def run_scenario(chk, sc, cfgseed, recipe, flavour="sched", workers=None, pressu
     d = chk.tmp_reuse()
     os.makedirs(d)
     src, out = os.path.join(d, "in"), os.path.join(d, "out")
-    reg = gamma.write_plotfile(src, ap, cfg_, values=thermo_values(cfgseed) if thermo else None)
+    reg = gamma.write_plotfile(src, ap, cfg_, values=thermo_values(cfgseed, fields) if thermo else None)
     before = alpha.tree_digest(src)
     rarg, kw, newnames = chef_kwargs(recipe, pressure)
     if serial is None:
@@ -231,6 +247,8 @@ def run_scenario(chk, sc, cfgseed, recipe, flavour="sched", workers=None, pressu
                 ch = Chef(src, recipe=rarg, outfile=out, serial=serial, kept_fields=kept, **kw)
                 ch.cook()
     except Exception as e:
+        if permuted and isinstance(e, ValueError) and not os.path.exists(out):
+            return None                 # refused before anything was written: the species block is not in mechanism order
         return "chef(%s, kept=%r) raised %s: %s" % (recipe, kept, type(e).__name__, str(e)[:200])
     if alpha.tree_digest(src) != before:
         return "the input plotfile was modified"
@@ -256,6 +274,9 @@ def run_scenario(chk, sc, cfgseed, recipe, flavour="sched", workers=None, pressu
             fab = alpha.read_fab_at(os.path.join(out, C["dir"], fn), off, reg)
             shape = gamma.box_shape(box)
             inarr = [reg.array_of(("A", l, eb["idx"], fi)) for fi in range(1, len(fields) + 1)]
+            if permuted:
+                # the independent evaluation takes the arrays by field name (mechanism order)
+                inarr = [inarr[fields.index(n)] for n in THERMO_FIELDS]
             newexp = None
             for name, tok in eb["pairs"]:
                 if name in nmap:
